@@ -8,5 +8,5 @@ def check(res):
     genprop.run(res, "C04", PROPFILE, corpus)
 
 
-PROPFILE = None
+PROPFILE = "theories/Properties/C0456.v"
 replay = genprop.replay
